@@ -30,6 +30,7 @@ type Env struct {
 	reach  string
 	depth  int
 	sec    Heap // heap at the start of the current critical section (atsection(e))
+	lhead  Heap // heap at the start of the current loop iteration (athead(e), back-edge clauses only)
 	pre    Heap // heap just before the call of an "after" site clause (before(e))
 	quant  int  // nesting depth of quantifiers (bound variables in scope)
 	maxOrd int  // evaluation happens in the middle of block 'at': later bindings are invisible
@@ -722,6 +723,13 @@ func (env *Env) call(x *ast.CallExpr) (Val, error) {
 			r.T = "ghostpre:" + strings.TrimPrefix(r.T, "ghost:")
 		}
 		return r, err
+	case "athead":
+		if env.lhead.m == nil {
+			return Val{}, fmt.Errorf("athead(): only available in `loop#N backedge` clauses")
+		}
+		n := env.sub()
+		n.heap = env.lhead
+		return n.eval(x.Args[0])
 	case "atsection":
 		if env.sec.m == nil {
 			return Val{}, fmt.Errorf("atsection(): no critical section has been entered on this path")
